@@ -659,7 +659,11 @@ func c17GenConfig(t *rapid.T) c17Config {
 	var names []string
 	for i := 0; i < ns; i++ {
 		names = append(names, perm[i])
-		c.Servers = append(c.Servers, c17Server{Name: perm[i], Addr: fmt.Sprintf("127.0.0.1:%d", 25566+i)})
+		addr := fmt.Sprintf("127.0.0.1:%d", 25566+i)
+		if i > 0 && rapid.IntRange(0, 5).Draw(t, "sameaddr") == 0 {
+			addr = c.Servers[i-1].Addr // two names for one backend address: servers are told apart by name
+		}
+		c.Servers = append(c.Servers, c17Server{Name: perm[i], Addr: addr})
 	}
 	genList := func(label string, maxLen int) []string {
 		n := rapid.IntRange(0, maxLen).Draw(t, label+"-len")
